@@ -258,6 +258,32 @@ func ruleA2(c *Ctx, id string) {
 		}
 	}
 	R.Check(okLoop, id, "fstxn.Abort|invalidation covers all held inodes", P.Pos(f.Pos()), "Abort calls a function that, for every inode in op.inodes, stores nil into the cache slot looked up for that inode's number, on every iteration", "nil store per iteration of the range over op.inodes", "only some cached inodes are dropped, or the cached object is replaced by something other than 'absent' (e.g. re-read through the aborting transaction, which sees its own aborted writes)")
+	// ... and what the abort path leaves in a slot is "absent", nothing else: an object rebuilt there from the
+	// committed inode with the old name cache attached (to spare the rebuild) keeps the aborted transaction's
+	// edits of that name cache - a RENAME refused in AddName has already taken the source name out of it
+	if cslot := P.Named("cache", "Cslot"); cslot != nil {
+		nSt, okSt := 0, true
+		var bad ssa.Instruction
+		for g := range P.Reach([]*ssa.Function{f}, func(h *ssa.Function) bool { return !IsRepoFunc(h) || h == V.releaseInodes }) {
+			if !IsRepoFunc(g) || g.Blocks == nil {
+				continue
+			}
+			for _, w := range FieldWrites(g) {
+				if w.Type == nil || w.Type.Obj() != cslot.Obj() || w.Field != "Obj" || w.Element {
+					continue
+				}
+				nSt++
+				if !isNilConst(w.Val) {
+					okSt, bad = false, w.Instr
+				}
+			}
+		}
+		at := P.Pos(f.Pos())
+		if bad != nil {
+			at = P.Pos(bad.Pos())
+		}
+		R.Check(okSt && nSt > 0, id, "fstxn.Abort|slots are cleared, not refilled", at, "every store to a cache slot's object on the abort path stores nil", fmt.Sprintf("%d stores, all nil", nSt), "the abort path puts an object into the cache slot: whatever it is built from, parts of the aborted transaction's cached state (the name cache) survive the abort")
+	}
 }
 
 func ruleA4(c *Ctx, id string) {
